@@ -24,6 +24,7 @@ import (
 	"fmt"
 	"math/rand"
 	"os"
+	"path/filepath"
 	"regexp"
 	"sort"
 	"strconv"
@@ -1613,7 +1614,109 @@ func (q *seq) scripted(kind int) {
 	}
 }
 
-func runSeq(e *env, out *hx.Out, rng *rand.Rand, idx int, nOps int, script int) {
+// ---------------------------------------------------------------------------------------------------------
+// corpus: hand-shrunk witnesses of scenario classes, replayed first on every run (corpus/C05/*.txt, corpus/C06/*.txt).
+// One op per line in the op-line syntax; `D0..D2` stand for the chain's destination addresses; a height may be written
+// `TB<n>`, `TB<n>-1`, `TB<n>+1` (timeout of batch nonce n) or `TC<n>…` (timeout of bridge call nonce n); `#` comments.
+
+func (q *seq) resolveHeight(w string) uint64 {
+	if v, err := strconv.ParseUint(w, 10, 64); err == nil {
+		return v
+	}
+	m := regexp.MustCompile(`^T([BC])([0-9]+)([+-][0-9]+)?$`).FindStringSubmatch(w)
+	if m == nil {
+		panic("corpus: bad height " + w)
+	}
+	n, _ := strconv.Atoi(m[2])
+	var t uint64
+	if m[1] == "B" {
+		for k, b := range q.extBatches {
+			if k[1] == n {
+				t = b.timeout
+			}
+		}
+	} else {
+		t = q.extCalls[n].timeout
+	}
+	if m[3] != "" {
+		d, _ := strconv.ParseInt(m[3], 10, 64)
+		t = uint64(int64(t) + d)
+	}
+	return t
+}
+
+func (q *seq) addr(w string) string {
+	if len(w) == 2 && w[0] == 'D' && w[1] >= '0' && w[1] <= '2' {
+		return q.e.dests[w[1]-'0']
+	}
+	return w
+}
+
+func undash(s string) string {
+	if s == "-" {
+		return ""
+	}
+	return s
+}
+
+func (q *seq) replayLine(line string) {
+	w := strings.Fields(line)
+	num := func(i int) int64 {
+		v, err := strconv.ParseInt(w[i], 10, 64)
+		if err != nil {
+			panic("corpus: bad number in: " + line)
+		}
+		return v
+	}
+	switch {
+	case w[0] == "send" && len(w) == 6:
+		q.do(func() (string, string) { return q.opSend(int(num(1)), q.addr(w[2]), int(num(3)), num(4), num(5)) })
+	case w[0] == "cancel" && len(w) == 3:
+		q.do(func() (string, string) { return q.opCancel(uint64(num(1)), int(num(2))) })
+	case w[0] == "incfee" && len(w) == 5:
+		q.do(func() (string, string) { return q.opIncFee(uint64(num(1)), int(num(2)), int(num(3)), num(4)) })
+	case w[0] == "reqbatch" && len(w) == 5:
+		q.do(func() (string, string) { return q.opReqBatch(int(num(1)), num(2), num(3), q.addr(w[4])) })
+	case w[0] == "bcall" && len(w) == 7:
+		var coins [][2]int64
+		if w[6] != "-" {
+			for _, c := range strings.Split(w[6], ",") {
+				p := strings.Split(c, ":")
+				t, _ := strconv.ParseInt(p[0], 10, 64)
+				a, _ := strconv.ParseInt(p[1], 10, 64)
+				coins = append(coins, [2]int64{t, a})
+			}
+		}
+		q.do(func() (string, string) {
+			return q.opBridgeCall(int(num(1)), int(num(2)), q.addr(w[3]), undash(w[4]), undash(w[5]), coins)
+		})
+	case w[0] == "obs" && len(w) == 3 && w[2] == "other":
+		h := q.resolveHeight(w[1])
+		q.do(func() (string, string) { return q.opObsOther(h) })
+	case w[0] == "obs" && len(w) == 5 && w[2] == "batch":
+		h := q.resolveHeight(w[1])
+		q.do(func() (string, string) { return q.opObsBatch(h, int(num(3)), uint64(num(4))) })
+	case w[0] == "obs" && len(w) == 5 && w[2] == "result":
+		h := q.resolveHeight(w[1])
+		q.do(func() (string, string) { return q.opObsResult(h, uint64(num(3)), w[4] == "1") })
+	case w[0] == "exec" && len(w) == 2:
+		n := uint64(0)
+		if w[1] == "last" {
+			n = q.e.k.GetLastObservedEventNonce(q.ctx)
+		} else {
+			n = uint64(num(1))
+		}
+		q.do(func() (string, string) { return q.opExec(n) })
+	case w[0] == "params" && len(w) == 5:
+		q.do(func() (string, string) { return q.opParams(uint64(num(1)), uint64(num(2)), uint64(num(3)), uint64(num(4))) })
+	case w[0] == "block" && len(w) == 2:
+		q.do(func() (string, string) { return q.opBlock(num(1)) })
+	default:
+		panic("corpus: bad line: " + line)
+	}
+}
+
+func newSeq(e *env, out *hx.Out, rng *rand.Rand) *seq {
 	ctx, _ := e.base.CacheContext()
 	q := &seq{e: e, ctx: ctx.WithEventManager(sdk.NewEventManager()), out: out, rng: rng, everPresent: map[int]bool{}, goneTx: map[int]string{}, executedTx: map[int]bool{},
 		refundedTx: map[int]bool{}, obsSuccessCall: map[int]bool{}, refundedCall: map[int]bool{}, executedCall: map[int]bool{},
@@ -1622,6 +1725,37 @@ func runSeq(e *env, out *hx.Out, rng *rand.Rand, idx int, nOps int, script int) 
 	p := e.params
 	out.Reset(strconv.Itoa(nActors), strconv.Itoa(nTokens), strconv.Itoa(2*fundEach), fmt.Sprint(p.AverageBlockTime), fmt.Sprint(p.AverageExternalBlockTime),
 		fmt.Sprint(p.ExternalBatchTimeout), fmt.Sprint(p.BridgeCallTimeout), fmt.Sprint(q.ctx.BlockHeight()))
+	return q
+}
+
+// runCorpus replays every corpus file of both properties on both chains.
+func runCorpus(envs []*env, out *hx.Out, rng *rand.Rand) {
+	dir := os.Getenv("VERIF_CORPUS")
+	if dir == "" {
+		return
+	}
+	var files []string
+	for _, d := range []string{filepath.Join(filepath.Dir(dir), "C05"), filepath.Join(filepath.Dir(dir), "C06")} {
+		m, _ := filepath.Glob(filepath.Join(d, "*.txt"))
+		files = append(files, m...)
+	}
+	sort.Strings(files)
+	for _, f := range files {
+		for _, e := range envs {
+			q := newSeq(e, out, rng)
+			out.Count("seq:corpus")
+			for _, l := range hx.ReadLines(f) {
+				if strings.HasPrefix(strings.TrimSpace(l), "#") {
+					continue
+				}
+				q.replayLine(l)
+			}
+		}
+	}
+}
+
+func runSeq(e *env, out *hx.Out, rng *rand.Rand, idx int, nOps int, script int) {
+	q := newSeq(e, out, rng)
 	_ = idx
 	if script >= 0 {
 		out.Count(fmt.Sprintf("seq:scripted%d", script))
@@ -1671,6 +1805,7 @@ func TestC05(t *testing.T) {
 	if os.Getenv("VERIF_FACTS") != "" {
 		out.Stats.Extra["facts"] = os.Getenv("VERIF_FACTS")
 	}
+	runCorpus(envs, out, rng)
 	n := hx.N(400, 3000)
 	nOps := 45
 	if hx.Tier() == "thorough" {
